@@ -19,13 +19,17 @@ EXPLANATION = (
     "the context kept for compute() is a deep copy taken before the cell's sequence sees the value and is stored only "
     "on the in-range path; (d) shape -- MapBins builds histogram(copy.deepcopy(hist.edges), ...) from the bins of the "
     "same histogram, md_map recurses into lists only (tuples are cells) and IterateBins yields once per item of "
-    "iter_bins_with_edges(data.bins, data.edges).  compute()'s freshness is covered by C04.  Does not decide equality "
+    "iter_bins_with_edges(data.bins, data.edges); (e) the classes of the fill chain bind their protocol attributes to bound methods, "
+    "never to closures (deepcopy copies functions by reference).  compute()'s freshness is covered by C04.  Does not decide equality "
     "with an independent per-cell run nor which cell a border value belongs to.")
 RULES = {
     "C11-a": "FRESH: one private deep copy of the analysis per cell (construction and MapBins)",
     "C11-b": "GUARD: cells are reached by get_bin_on_value indices, negative/overflow indices are ignored",
     "C11-c": "ONCE/ORDER: one cell filled in range; the kept context is copied before the cell's sequence may change it",
     "C11-d": "shape: same edges (deep-copied), list-only recursion in md_map, one yield per cell in IterateBins",
+    "C11-e": "DEEPCOPY-SAFE: the classes that make up a per-cell analysis (FillSeq chain, adapters, sequences) bind their protocol "
+             "attributes to bound methods, never to lambdas or nested functions (copy.deepcopy copies functions by reference, so the "
+             "cell's copy would drive the original objects)",
 }
 SIB = "lena.structures.split_into_bins"
 HF = "lena.structures.hist_functions"
@@ -360,7 +364,50 @@ def check_iterate_fresh(ctx):
     ctx.instances_floor("C11-a/iteratebins", n, 2, "context updates in the cell loop of IterateBins.run")
 
 
+CHAIN_CLASSES = (("lena.core.fill_seq", "_Fill"), ("lena.core.fill_seq", "FillSeq"), ("lena.core.fill_compute_seq", "FillComputeSeq"),
+                 ("lena.core.fill_request_seq", "FillRequestSeq"), ("lena.core.adapters", "FillInto"), ("lena.core.adapters", "FillCompute"),
+                 ("lena.core.adapters", "FillRequest"), ("lena.core.adapters", "Run"), ("lena.core.adapters", "Call"),
+                 ("lena.core.sequence", "Sequence"), ("lena.core.lena_sequence", "LenaSequence"))
+PROTOCOL_ATTRS = ("fill", "compute", "request", "run", "fill_into", "__call__", "_call", "reset")
+
+
+def check_deepcopy_safe(ctx):
+    """SplitIntoBins (init_bins(..., deepcopy=True)) and MapBins (copy.deepcopy(self._seq)) give every cell its own deep copy
+    of the analysis.  copy.deepcopy re-binds bound methods to the copied object but returns plain functions (lambdas, nested
+    defs) as they are: a protocol attribute bound to a closure over the wrapped elements keeps driving the *original* elements
+    in every copy, so all cells fill one accumulator while compute() reads the untouched copies."""
+    from ..loader import methods as _methods
+    n = 0
+    for modname, cname in CHAIN_CLASSES:
+        cls = ctx.tree.cls(modname, cname)
+        for mname, fn in _methods(cls).items():
+            nested = {d.name for d in ast.walk(fn) if isinstance(d, ast.FunctionDef) and d is not fn}
+            for st in A.walk_local(fn):
+                if not isinstance(st, ast.Assign):
+                    continue
+                for t in st.targets:
+                    if not (A.is_self_attr(t) and t.attr in PROTOCOL_ATTRS):
+                        continue
+                    n += 1
+                    v = st.value
+                    closure = isinstance(v, ast.Lambda) or (isinstance(v, ast.Name) and v.id in nested)
+                    if closure:
+                        fnode = v if isinstance(v, ast.Lambda) else [d for d in ast.walk(fn) if isinstance(d, ast.FunctionDef) and d.name == v.id][0]
+                        params = set(A.func_params(fnode))
+                        body = [fnode.body] if isinstance(fnode, ast.Lambda) else fnode.body
+                        free = {x.id for b in body for x in ast.walk(b) if isinstance(x, ast.Name) and isinstance(x.ctx, ast.Load)} - params
+                        free = {x for x in free if x not in dir(__builtins__) and x not in ("lena", "itertools", "copy")}
+                        closure = bool(free)
+                    ctx.check("C11-e", not closure, st, "%s.%s binds self.%s to the function `%s`, which closes over %s: copy.deepcopy of the "
+                              "object copies this function by reference, so every per-cell copy made by SplitIntoBins/MapBins keeps "
+                              "filling the original elements" % (cname, mname, t.attr, A.short(v, 50),
+                                                                  ", ".join(sorted(free)) if closure else ""),
+                              detail="%s.%s: self.%s is not a closure" % (cname, mname, t.attr), construct="closure-attr:%s.%s" % (cname, t.attr))
+    ctx.instances_floor("C11-e", n, 15, "protocol attributes bound in the classes of the fill chain")
+
+
 def check(ctx):
+    check_deepcopy_safe(ctx)
     check_fresh(ctx)
     check_iterate_fresh(ctx)
     check_routing(ctx)
@@ -369,6 +416,7 @@ def check(ctx):
 
 
 VARIANTS = [
+    M("fill-chain-lambda", "lena/core/fill_seq.py", "        self._fill_into_el = fill_into_el\n        self._fill_el = fill_el\n", "        self._fill_into_el = fill_into_el\n        self._fill_el = fill_el\n        fill_into = fill_into_el.fill_into\n        self.fill = lambda value: fill_into(fill_el, value)\n", ["C11-e"]),
     M("iteratebins-shared-hist-context", "lena/structures/split_into_bins.py", "update_nested(\"bins\", bin_context, copy.deepcopy(hist_context))", "update_nested(\"bins\", bin_context, hist_context)", ["C11-a"]),
     M("init-bins-row-deepcopy", "lena/structures/hist_functions.py", "            if deepcopy:\n                return [copy.deepcopy(value) for _ in range(len(arr)-1)]\n            else:\n                return list([value] * (len(arr)-1))", "            row = [value] * (len(arr)-1)\n            if deepcopy:\n                row = copy.deepcopy(row)\n            return row", ["C11-a"]),
     TW("init-bins-local", "lena/structures/hist_functions.py", "        if deepcopy:\n            return [copy.deepcopy(value) for _ in range(nbins)]\n        else:\n            return [value] * nbins", "        if deepcopy:\n            cells = [copy.deepcopy(value) for _ in range(nbins)]\n            return cells\n        else:\n            return [value] * nbins"),
